@@ -35,7 +35,7 @@ Proof. exact handle_spec. Qed.
 
 (* ---- coherence after every sequential history (group of any size, either facade) and every fault pattern ---- *)
 Theorem c15_seq_coherent : forall c ops k v,
-  cache_at c (run_ops c (ginit c) ops) k = Some v -> store_at c (run_ops c (ginit c) ops) k = Some v.
+  cache_at c (run_ops c (ginit c) ops) k = Some v -> store_at c (run_ops c (ginit c) ops) k = v.
 Proof. exact seq_coherent. Qed.
 
 (* ---- a successful delete removes the cached entry ---- *)
@@ -73,19 +73,19 @@ Proof. exact sched_inv. Qed.
    in progress - the value the store held after the last completed operation on that key *)
 Theorem c15_sched_coherent : forall c deep ls g tr k v, grun c deep (minit c) ls = Some (g, tr) ->
   mcache_at c g k = Some v ->
-  mstore_at c g k = Some v \/ (in_progress (g (loc_of c k)) k /\ mcommitted_at c g k = Some v).
+  mstore_at c g k = v \/ (in_progress (g (loc_of c k)) k /\ mcommitted_at c g k = v).
 Proof. exact sched_coherent. Qed.
 
 Theorem c15_sched_coherent_idle : forall c deep ls g tr k, grun c deep (minit c) ls = Some (g, tr) ->
   ~ in_progress (g (loc_of c k)) k ->
-  mcommitted_at c g k = mstore_at c g k /\ (forall v, mcache_at c g k = Some v -> mstore_at c g k = Some v).
+  mcommitted_at c g k = mstore_at c g k /\ (forall v, mcache_at c g k = Some v -> mstore_at c g k = v).
 Proof. exact sched_coherent_idle. Qed.
 
 (* what DoGet's fast path returns from the caller's goroutine, at any point of any schedule *)
 Theorem c15_sched_fast_get : forall c deep ls g tr j g' v, grun c deep (minit c) ls = Some (g, tr) ->
   gstep c deep g (GCall j) = Some (g', AFast v) ->
   exists k, j_op j = OGet k /\
-    (mstore_at c g k = Some v \/ (in_progress (g (loc_of c k)) k /\ mcommitted_at c g k = Some v)).
+    (mstore_at c g k = v \/ (in_progress (g (loc_of c k)) k /\ mcommitted_at c g k = v)).
 Proof. exact sched_fast_get. Qed.
 
 Theorem c15_sched_delete_evicts : forall c deep ls g tr w g' id e, grun c deep (minit c) ls = Some (g, tr) ->
@@ -130,7 +130,7 @@ Definition ex_labels := [GCall (mkJob 0 (OGet 7) []); GStep 0; GStep 0; GStep 0;
                          GCall (mkJob 1 (OUpdate 7 3) []); GStep 0; GStep 0].          (* peek, updFn: store written *)
 Example c15_ex_stale_window :
   match grun ex_cfg 0 (minit ex_cfg) ex_labels with
-  | Some (g, _) => mcache_at ex_cfg g 7 = Some 5 /\ mstore_at ex_cfg g 7 = Some 103 /\ mcommitted_at ex_cfg g 7 = Some 5
+  | Some (g, _) => mcache_at ex_cfg g 7 = Some (Some 5) /\ mstore_at ex_cfg g 7 = Some 103 /\ mcommitted_at ex_cfg g 7 = Some 5
   | None => False end.
 Proof. vm_compute. repeat split. Qed.
 (* and the trace of a schedule with two jobs on one key queued behind each other *)
@@ -147,12 +147,12 @@ Definition ex_seq_ops : list (C15_Model.op * list fault) :=
 Example c15_ex_seq_nontrivial :
   let g := run_ops ex_seq_cfg (ginit ex_seq_cfg) ex_seq_ops in
   cache_at ex_seq_cfg g 1 = None /\ store_at ex_seq_cfg g 1 = Some 107          (* evicted by key 3, store updated once *)
-  /\ cache_at ex_seq_cfg g 3 = Some 104 /\ store_at ex_seq_cfg g 3 = Some 104
-  /\ cache_at ex_seq_cfg g 2 = Some 105 /\ store_at ex_seq_cfg g 2 = Some 105.  (* the second add was a duplicate *)
+  /\ cache_at ex_seq_cfg g 3 = Some (Some 104) /\ store_at ex_seq_cfg g 3 = Some 104
+  /\ cache_at ex_seq_cfg g 2 = Some (Some 105) /\ store_at ex_seq_cfg g 2 = Some 105.  (* the second add was a duplicate *)
 Proof. vm_compute. repeat split. Qed.
 (* the hypothesis of c15_add_cached_is_dup is satisfiable, and its conclusion is what happens *)
 Example c15_ex_dup :
-  cache_at ex_seq_cfg (run_ops ex_seq_cfg (ginit ex_seq_cfg) ex_seq_ops) 2 = Some 105
+  cache_at ex_seq_cfg (run_ops ex_seq_cfg (ginit ex_seq_cfg) ex_seq_ops) 2 = Some (Some 105)
   /\ snd (do_op ex_seq_cfg (run_ops ex_seq_cfg (ginit ex_seq_cfg) ex_seq_ops) (OAdd 2 9) []) = RErr EDupKey.
 Proof. vm_compute. split; reflexivity. Qed.
 (* a successful delete of a cached key *)
@@ -164,7 +164,16 @@ Proof. vm_compute. repeat split. Qed.
 Example c15_ex_delete_fails :
   let g := run_ops ex_seq_cfg (ginit ex_seq_cfg) ex_seq_ops in
   let '(g', evs, r) := do_op ex_seq_cfg g (ODelete 2) [FErr] in
-  r = RErr EInj /\ cache_at ex_seq_cfg g' 2 = Some 105 /\ store_at ex_seq_cfg g' 2 = Some 105.
+  r = RErr EInj /\ cache_at ex_seq_cfg g' 2 = Some (Some 105) /\ store_at ex_seq_cfg g' 2 = Some 105.
+Proof. vm_compute. repeat split. Qed.
+
+(* a cached nil is a cached entry: a load that answers (nil, nil) for a missing row is cached as nil (coherent: the
+   store holds nothing for the key), the next get is served from the cache, and an add for that key is a duplicate *)
+Example c15_ex_cached_nil :
+  let g := run_ops ex_seq_cfg (ginit ex_seq_cfg) [(OGet 9, [FNil])] in
+  cache_at ex_seq_cfg g 9 = Some None /\ store_at ex_seq_cfg g 9 = None
+  /\ snd (fst (do_op ex_seq_cfg g (OGet 9) [])) = [EvGet 9 (Some None)] /\ snd (do_op ex_seq_cfg g (OGet 9) []) = ROk None
+  /\ snd (do_op ex_seq_cfg g (OAdd 9 4) []) = RErr EDupKey.
 Proof. vm_compute. repeat split. Qed.
 
 Print Assumptions c15_case_sound.
@@ -194,3 +203,4 @@ Print Assumptions c15_ex_seq_nontrivial.
 Print Assumptions c15_ex_dup.
 Print Assumptions c15_ex_delete.
 Print Assumptions c15_ex_delete_fails.
+Print Assumptions c15_ex_cached_nil.
